@@ -54,8 +54,19 @@ def generate(rng, run, tier):
         h = {'k': 'gen', 'n': 'ListBox', 'a': [inner]}
         o = {'o': 'listbox', 'i': [{'o': 'int', 'v': 1}, {'o': 'str', 'v': 'a'}]}
         return {'h': h, 'x': o, 'conf': entry.gen_conf(rng), 'draws': [0, 1], 'perturb': None, 'warm_obj': {'o': 'int', 'v': 1}}
+    validator_focus = rng.random() < 0.06
     for _ in range(20):
-        h = H.gen_hint(rng, rng.choice([1, 2, 3, 3, 4]))
+        if validator_focus:
+            # Annotated[Node, <validator expression over attribute chains>], bare or one level down: nested IsAttr on one
+            # attribute name, compounds with operands before and after the nested one (generated code of validators)
+            h = {'k': 'ann', 'a': [{'k': 'cls', 'n': 'Node'}], 'v': [H.gen_node_validator(rng, rng.choice([2, 3, 3, 4]))]}
+            w = rng.random()
+            if w < 0.2:
+                h = {'k': 'seq', 'o': 'list', 'a': [h]}
+            elif w < 0.3:
+                h = {'k': 'opt', 'a': [h]}
+        else:
+            h = H.gen_hint(rng, rng.choice([1, 2, 3, 3, 4]))
         if selfref_typearg(h) and not allow_selfref:
             continue
         try:
